@@ -45,3 +45,103 @@ def gen_persist():
     for n, ok, diff, keys in rows:
         out += f"(* {n}: state_dict keys {keys[:3]}{'...' if len(keys) > 3 else ''}; fresh wiring differed before loading: {diff} *)\n"
     return out
+
+
+# ---------------------------------------------------------------------------------------------------------------------
+# Gen/PersistSrc.v: the persistence methods of the layers, statement by statement, are those modelled in Model/Persist.v
+# (dense_save / dense_load, conv_save / conv_load, thermo_save / thermo_load).
+SETDEFAULT_NN = ['state_dict.setdefault(prefix + nn.modules.module._EXTRA_STATE_KEY_SUFFIX, self.get_extra_state())',
+                 'super()._load_from_state_dict(state_dict, prefix, *args, **kwargs)']
+MODELLED = {
+    ("dense.py", "LogicDense", "get_extra_state"): [
+        "return {'indices': tuple((i.detach().cpu() for i in self.indices))}"],
+    ("dense.py", "LogicDense", "set_extra_state"): [
+        "indices = tuple((i.to(torch.int64).to(self.device) for i in state['indices']))",
+        "if len(indices) != 2 or any((i.shape != (self.out_dim,) or (i.numel() > 0 and (int(i.min()) < 0 or int(i.max()) >= self.in_dim)) for i in indices)):\n"
+        "    raise ValueError('the persisted wiring does not fit this layer (in_dim or out_dim differ)')",
+        'self.indices = indices',
+        "if self.implementation == 'cuda':\n    self._init_cuda_indices()"],
+    ("dense.py", "LogicDense", "_load_from_state_dict"): [
+        'state_dict.setdefault(prefix + torch.nn.modules.module._EXTRA_STATE_KEY_SUFFIX, self.get_extra_state())',
+        'super()._load_from_state_dict(state_dict, prefix, *args, **kwargs)'],
+    ("conv.py", "_PersistentWiring", "_geometry"): [
+        'rf = self.receptive_field_size',
+        "return {'in_dim': tuple((int(n) for n in self.in_dim)), 'channels': int(self.channels), 'num_kernels': int(self.num_kernels), "
+        "'tree_depth': int(self.tree_depth), 'stride': int(self.stride), 'padding': int(self.padding or 0), "
+        "'receptive_field_size': tuple((int(r) for r in rf)) if isinstance(rf, (tuple, list)) else int(rf)}"],
+    ("conv.py", "_PersistentWiring", "get_extra_state"): [
+        "return {'geometry': self._geometry(), 'kernel_pairs': tuple((p.detach().cpu() for p in self.kernel_pairs)), "
+        "'indices': [tuple((i.detach().cpu() for i in level)) for level in self.indices]}"],
+    ("conv.py", "_PersistentWiring", "set_extra_state"): [
+        "pairs = tuple((p.to(self.device) for p in state['kernel_pairs']))",
+        'rf = self.receptive_field_size',
+        'limits = (tuple(rf) if isinstance(rf, (tuple, list)) else (rf,) * len(self.in_dim)) + (self.channels,)',
+        'fits = len(pairs) == len(self.kernel_pairs) and all((p.shape == own.shape and p.numel() > 0 and (int(p.min()) >= 0) and '
+        'all((int(p[..., d].max()) < lim for d, lim in enumerate(limits))) for p, own in zip(pairs, self.kernel_pairs)))',
+        "if not fits:\n    raise ValueError('the persisted wiring does not fit this layer (receptive field, channels, kernels or tree depth differ)')",
+        "if 'geometry' in state:\n    if state['geometry'] != self._geometry():\n        raise ValueError(<msg>)\n"
+        "    saved = [tuple((i.to(self.device) for i in level)) for level in state['indices']]\n"
+        "    if len(saved) != len(self.indices) or any((len(lv) != len(own) or any((a.shape != b.shape for a, b in zip(lv, own))) "
+        "for lv, own in zip(saved, self.indices))):\n        raise ValueError('the persisted index tensors do not have the shapes of this layer')\n"
+        "    self.kernel_pairs = pairs\n    self.indices = saved\nelse:\n    self.kernel_pairs = pairs\n"
+        "    self.indices = self.get_indices_from_kernel_pairs(pairs)"],
+    ("conv.py", "_PersistentWiring", "_load_from_state_dict"): SETDEFAULT_NN,
+    ("thresholding.py", "LearnableThermometerThresholding", "get_extra_state"): ["return {'frozen': bool(self._frozen)}"],
+    ("thresholding.py", "LearnableThermometerThresholding", "set_extra_state"): [
+        "self._frozen = bool(state['frozen'])", 'self.raw_diffs.requires_grad = not self._frozen'],
+    ("thresholding.py", "LearnableThermometerThresholding", "_load_from_state_dict"): SETDEFAULT_NN,
+}
+PERSIST_METHODS = ("get_extra_state", "set_extra_state", "_load_from_state_dict", "_geometry", "state_dict", "load_state_dict",
+                   "_save_to_state_dict", "__getstate__", "__setstate__", "__reduce__", "__reduce_ex__")
+
+
+def gen_persist_src():
+    import ast
+    import re
+    from harness.common import read_src
+    mods = {f: ast.parse(read_src("src/torchlogix/layers/" + f)) for f in ("dense.py", "conv.py", "thresholding.py")}
+
+    def cls_of(f, name):
+        for n in mods[f].body:
+            if isinstance(n, ast.ClassDef) and n.name == name:
+                return n
+        _fail(f"{f}: class {name} not found")
+
+    def stmts(fn):
+        out = []
+        for s in fn.body:
+            if isinstance(s, ast.Expr) and isinstance(s.value, ast.Constant):
+                continue
+            t = ast.unparse(s)
+            # the text of one error message (an f-string quoting both geometries) is not modelled
+            t = re.sub(r"raise ValueError\(f'the persisted wiring belongs to a layer of another geometry[^\n]*\)\n", "raise ValueError(<msg>)\n", t)
+            out.append(t)
+        return out
+    for (f, cname, meth), exp in MODELLED.items():
+        c = cls_of(f, cname)
+        fn = [m for m in c.body if isinstance(m, ast.FunctionDef) and m.name == meth]
+        if len(fn) != 1:
+            _fail(f"{cname}.{meth}: defined {len(fn)} times")
+        got = stmts(fn[0])
+        if got != exp:
+            for i, (a, b) in enumerate(zip(got, exp)):
+                if a != b:
+                    _fail(f"{cname}.{meth}: statement {i} is {a!r}, modelled {b!r}")
+            _fail(f"{cname}.{meth}: {len(got)} statements, modelled {len(exp)}")
+    # no class overrides or adds a persistence method beyond the modelled ones; the convolutions inherit _PersistentWiring first
+    for f, mod in mods.items():
+        for n in mod.body:
+            if isinstance(n, ast.ClassDef):
+                for m in n.body:
+                    if isinstance(m, ast.FunctionDef) and m.name in PERSIST_METHODS and (f, n.name, m.name) not in MODELLED:
+                        _fail(f"{n.name}.{m.name}: persistence method outside the model")
+    for cname in ("LogicConv2d", "LogicConv3d"):
+        bases = [ast.unparse(b) for b in cls_of("conv.py", cname).bases]
+        if bases[:1] != ["_PersistentWiring"]:
+            _fail(f"{cname}: bases {bases}: _PersistentWiring is not the first base")
+    if [ast.unparse(b) for b in cls_of("conv.py", "_PersistentWiring").bases]:
+        _fail("_PersistentWiring has base classes")
+    return (HEADER + "(* get_extra_state / set_extra_state / _load_from_state_dict / _geometry of LogicDense, _PersistentWiring (first base of\n"
+            "   LogicConv2d and LogicConv3d, which do not override them) and LearnableThermometerThresholding equal, statement by\n"
+            "   statement, the code modelled by dense_save / dense_load, conv_save / conv_load, thermo_save / thermo_load *)\n"
+            "Definition persist_src_matches : bool := true.\n")
